@@ -362,7 +362,22 @@ end subroutine work
 end submodule impl
 """
 
-CORPUS_TEXT = {"P1": P1, "P3": P3, "P4": P4, "P5": P5, "P6": P6, "P7": P7, "P8": P8, "P9": P9_08}
+P10 = """
+subroutine lab(n)
+integer :: n, i
+character(len=8) :: msg
+10 format (i3)
+i = 0
+20 i = i + 1
+if (i < n) goto 20
+msg = 'a!b''c'
+30 continue
+write(*, 10) i
+100 print *, msg
+end subroutine lab
+"""
+
+CORPUS_TEXT = {"P1": P1, "P3": P3, "P4": P4, "P5": P5, "P6": P6, "P7": P7, "P8": P8, "P9": P9_08, "Q1": P10}
 _cache = {}
 
 
